@@ -17,9 +17,10 @@ import (
 )
 
 type renderer struct {
-	p     *Program
-	subst map[*ssa.Parameter]string // for inlined callees
-	depth int
+	p      *Program
+	subst  map[*ssa.Parameter]string // for inlined callees
+	depth  int
+	onPath map[*ssa.Phi]bool // loop-carried phis being rendered
 }
 
 func (p *Program) Render(v ssa.Value) string {
@@ -132,6 +133,14 @@ func (r *renderer) val(v ssa.Value, d int) string {
 		if x.Comment == "rangeindex" {
 			return "(i-1)"
 		}
+		if r.onPath == nil {
+			r.onPath = map[*ssa.Phi]bool{}
+		}
+		if r.onPath[x] {
+			return "loop"
+		}
+		r.onPath[x] = true
+		defer delete(r.onPath, x)
 		var parts []string
 		seen := map[string]bool{}
 		for _, e := range x.Edges {
@@ -354,7 +363,7 @@ func (r *renderer) call(c *ssa.CallCommon, d int) string {
 		// inline trivial module helpers: one block, one return, one result
 		if r.p.InModule(f) && len(f.Blocks) == 1 && r.depth < 2 && f.Signature.Results().Len() == 1 && len(f.Params) == len(c.Args) && f.Parent() == nil {
 			if ret, ok := f.Blocks[0].Instrs[len(f.Blocks[0].Instrs)-1].(*ssa.Return); ok && pureBlock(f.Blocks[0]) {
-				sub := &renderer{p: r.p, subst: map[*ssa.Parameter]string{}, depth: r.depth + 1}
+				sub := &renderer{p: r.p, subst: map[*ssa.Parameter]string{}, depth: r.depth + 1, onPath: r.onPath}
 				for i, prm := range f.Params {
 					sub.subst[prm] = args[i]
 				}
@@ -524,7 +533,10 @@ func rangeSubject(phi *ssa.Phi, r *renderer, d int) string {
 }
 
 // effects renders the stores to non-local memory and the map updates performed by fn.
-func (p *Program) effects(fn *ssa.Function) []string {
+func (p *Program) effects(fn *ssa.Function) []string { return p.effectsOpt(fn, true) }
+
+// effectsOpt: keepFresh also lists stores into slices / maps made by the function itself.
+func (p *Program) effectsOpt(fn *ssa.Function, keepFresh bool) []string {
 	var out []string
 	allInstrs(fn, func(in ssa.Instruction) {
 		switch x := in.(type) {
@@ -532,12 +544,20 @@ func (p *Program) effects(fn *ssa.Function) []string {
 			if isLocalAddr(x.Addr) {
 				return
 			}
-			out = append(out, strings.TrimPrefix(p.Render(x.Addr), "&")+" = "+p.Render(x.Val))
+			a := strings.TrimPrefix(p.Render(x.Addr), "&")
+			if strings.HasPrefix(a, "make(") && !keepFresh {
+				return // element of a slice made in this function
+			}
+			out = append(out, a+" = "+p.Render(x.Val))
 		case *ssa.MapUpdate:
 			if _, ok := x.Map.(*ssa.MakeMap); ok {
 				return
 			}
-			out = append(out, p.Render(x.Map)+"["+p.Render(x.Key)+"] = "+p.Render(x.Value))
+			m := p.Render(x.Map)
+			if strings.HasPrefix(m, "make(") && !keepFresh {
+				return // map made in this function
+			}
+			out = append(out, m+"["+p.Render(x.Key)+"] = "+p.Render(x.Value))
 		}
 	})
 	sort.Strings(out)
